@@ -9,7 +9,7 @@ From Coq Require Import ZArith List Bool Znumtheory.
 From Coq.Strings Require Import Byte.
 From Verif Require Import Lib.Bytes Crypto.Secp256k1 Gen.GenConsts Gen.GenKeyConsts Gen.GenNetworks
   Model.SpecNetworks Model.AddrEnc Model.KeyPoint Proofs.KeyPointFermat Proofs.KeyPoint Proofs.KeyPointWitness Proofs.AddrEnc
-  Proofs.SpecNetworksGlue Proofs.AddrEncFrozen.
+  Proofs.SpecNetworksGlue Proofs.AddrEncFrozen Proofs.KeyPointMarker.
 Import ListNotations.
 Open Scope Z_scope.
 
@@ -52,6 +52,20 @@ Proof. exact import_range_pf. Qed.
 Theorem import_range_wide : forall inp c s k,
   lib_key_import inp c s = ImpOk k -> k_private k = true -> k_secret k mod secp256k1_n <> 0.
 Proof. exact import_range_wide_pf. Qed.
+
+(* the byte 01 is a compression marker only as the 33rd byte: a 32-byte secret (plain binary import, and what the BIP38
+   route hands to Key.__init__ together with the compression flag of the text) is taken whole whatever its last byte is *)
+Theorem import_bytes32_exact : forall b c s k,
+  length b = 32%nat -> lib_key_import (KBytes b) c s = ImpOk k ->
+  k_private k = true /\ k_secret k = of_be b /\ k_compressed k = c.
+Proof. exact import_bytes32_exact_pf. Qed.
+
+(* ... and a 33-byte input that is not a public key is a private key only when it ends in 01, and then its first 32 bytes *)
+Theorem import_bytes33_marker : forall b c s k,
+  length b = 33%nat -> first_is b 2 || first_is b 3 || first_is b 4 = false ->
+  lib_key_import (KBytes b) c s = ImpOk k ->
+  last_is b 1 = true /\ k_private k = true /\ k_secret k = of_be (firstn 32 b) /\ k_compressed k = true.
+Proof. exact import_bytes33_marker_pf. Qed.
 
 Theorem import_public_on_curve : prime secp256k1_p -> forall inp c k,
   lib_key_import inp c true = ImpOk k -> k_private k = false ->
@@ -141,6 +155,11 @@ Proof. exact generator_on_curve_w. Qed.
 Example decompress_generator : lib_decompress_y (Z.odd secp_Gy) secp_Gx = secp_Gy.
 Proof. exact decompress_generator_w. Qed.
 
+(* hypotheses satisfiable: the secret 257 = 00..0101 as 32 bytes is imported whole (not as 1 with a marker) *)
+Example import_bytes32_last_byte_01 :
+  exists k, lib_key_import (KBytes (repeat x00 30 ++ [x01; x01])) true true = ImpOk k /\ k_secret k = 257.
+Proof. exact import_bytes32_last_byte_01_w. Qed.
+
 Example table_has_eleven_networks : length all_networks = 11%nat.
 Proof. reflexivity. Qed.
 
@@ -226,6 +245,8 @@ Print Assumptions compress_decompress.
 Print Assumptions decompress_rejects_offcurve.
 Print Assumptions import_range.
 Print Assumptions import_range_wide.
+Print Assumptions import_bytes32_exact.
+Print Assumptions import_bytes33_marker.
 Print Assumptions import_public_on_curve.
 Print Assumptions private_public_forms.
 Print Assumptions address_is_standard.
